@@ -7,6 +7,8 @@ TRANSPARENT = (
     "as std::clone::Clone>::clone", "as std::ops::Deref>::deref", "as std::convert::AsRef<T>>::as_ref",
     "as std::ops::DerefMut>::deref_mut", "as std::borrow::Borrow<T>>::borrow",
     "as std::iter::IntoIterator>::into_iter",
+    "Result::<T, E>::map_err", "Option::<T>::ok_or_else", "Option::<T>::ok_or",
+    "for std::result::Result<T, E>>::with_context", "for std::result::Result<T, E>>::context",
 )
 
 
@@ -292,3 +294,28 @@ def field_origins(body, operand, depth=16):
                     go(pl["args"][0], d + 1)
     go(operand, 0)
     return out
+
+
+def is_mut_borrow(body, operand, depth=8):
+    """The operand is (a reborrow / copy of) a mutable reference created in this body, or a &mut parameter."""
+    defs = Defs(body)
+    seen = set()
+
+    def go(o, d):
+        if o["k"] not in ("copy", "move") or d > depth:
+            return False
+        n = o["place"]["local"]
+        if n in seen:
+            return False
+        seen.add(n)
+        if body.local_ty(n).startswith("&mut "):
+            return True
+        for kind, bid, idx, pl in defs.of(n):
+            if kind == "assign":
+                rv = pl["rv"]
+                if rv["k"] == "ref" and rv.get("mut"):
+                    return True
+                if rv["k"] in ("use", "cast") and go(rv["op"], d + 1):
+                    return True
+        return False
+    return go(operand, 0)
